@@ -326,13 +326,18 @@ pub fn run(a: &Args) {
     let mut rep = Report { property: "C01".into(), tier: a.tier.clone(), seed: a.seed, ..Default::default() };
     // replay files of part 2 (open editions / base minter) carry "part": "oe"
     let mut oe_replay: Option<OeCase> = None;
+    // replay files of part 3 (token-merge minter) carry "part": "tm"
+    let mut tm_replay: Option<tmw::Case> = None;
     if let Some(p) = &a.replay {
         let raw: serde_json::Value = serde_json::from_str(&std::fs::read_to_string(p).expect("replay file")).expect("replay json");
         if raw.get("part").and_then(|x| x.as_str()) == Some("oe") {
             oe_replay = Some(serde_json::from_value(raw["case"].clone()).expect("oe replay case"));
         }
+        if raw.get("part").and_then(|x| x.as_str()) == Some("tm") {
+            tm_replay = Some(serde_json::from_value(raw["case"].clone()).expect("tm replay case"));
+        }
     }
-    let cases: Vec<Case> = if oe_replay.is_some() {
+    let cases: Vec<Case> = if oe_replay.is_some() || tm_replay.is_some() {
         vec![]
     } else if let Some(p) = &a.replay {
         #[derive(Deserialize)]
@@ -389,13 +394,16 @@ pub fn run(a: &Args) {
     out.write_cases("C01", "From LP Require Import Num Pay Sg1 Bank MinterVending SaleCorr.", "scase", "sale_check", &coq_cases, 6, &mut rep);
     // ---- part 2: open-edition minters and the base minter ----
     let (oe_n, oe_viol) = if a.replay.is_some() && oe_replay.is_none() { (0, 0) } else { run_oe_part(a, &out, &mut rep, oe_replay, nviol) };
+    // ---- part 3: token-merge minter ----
+    let (tm_n, tm_viol) = if a.replay.is_some() && tm_replay.is_none() { (0, 0) } else { run_tm_part(a, &out, &mut rep, tm_replay, nviol + oe_viol) };
     out.finish(&rep);
     println!(
-        "C01 harness: {} vending cases + {} open-edition/base cases, {} steps, {} monitor violations",
+        "C01 harness: {} vending cases + {} open-edition/base cases + {} token-merge cases, {} steps, {} monitor violations",
         cases.len(),
         oe_n,
+        tm_n,
         rep.evaluations,
-        nviol + oe_viol
+        nviol + oe_viol + tm_viol
     );
 }
 
@@ -1173,5 +1181,455 @@ fn run_oe_part(a: &Args, out: &OutDir, rep: &mut Report, replay: Option<OeCase>,
         6,
         rep,
     );
+    (cases.len(), nviol)
+}
+
+
+// =====================================================================================
+// Part 3 — token-merge minter: "every minted token id lies in 1..=num_tokens and is minted
+// at most once, mint-for delivers exactly the requested id or fails, shuffle changes
+// neither the set of remaining ids nor their number, the reported mintable count always
+// equals num_tokens minus minted minus burned, with no mint succeeding at zero."
+// The world and the operation language are those of C17 (c17_world.rs); histories are
+// focused on supply: deposit-triggered mints interleaved with MintTo / MintFor / Shuffle /
+// Purge / BurnRemaining up to and past sell-out.  Cases are checked by the C17 model
+// checker (corr/C17Corr.v).
+// =====================================================================================
+#[path = "c17_world.rs"]
+mod tmw;
+
+const TM_VARIANT: &str = "token-merge-minter";
+
+fn tm_op_mints(op: &tmw::Op) -> bool {
+    matches!(op, tmw::Op::MintTo { .. } | tmw::Op::MintFor { .. } | tmw::Op::Send { .. })
+}
+
+pub fn run_tm_case(c: &tmw::Case) -> CaseResult {
+    let mut res = CaseResult { coq: None, steps: 0, ok_steps: 0, violations: vec![], hist: BTreeMap::new() };
+    let mut w = match tmw::build(c) {
+        Ok(w) => w,
+        Err(_) => {
+            *res.hist.entry(format!("{}:create:err", TM_VARIANT)).or_insert(0) += 1;
+            return res;
+        }
+    };
+    let n = c.num_tokens as u64;
+    let init = tmw::observe(&w, c);
+    let mut steps_coq = vec![];
+    // ---- monitor state (property text, independent of the model) ----
+    let mut minted: BTreeSet<u64> = BTreeSet::new();
+    let mut burned: u64 = 0;
+    let mut burn_done = false;
+    {
+        let mut ids: Vec<u64> = init.positions.iter().map(|p| p.1 as u64).collect();
+        ids.sort();
+        let keys: Vec<u64> = init.positions.iter().map(|p| p.0 as u64).collect();
+        if ids != (1..=n).collect::<Vec<u64>>() || keys != (1..=n).collect::<Vec<u64>>() || init.mintable != n {
+            res.violations.push(("C01:tm-initial-table".into(), format!("{}: initial ids/positions/count are not 1..={}", TM_VARIANT, n)));
+        }
+    }
+    let mut pre = init.clone();
+    for st in &c.steps {
+        crate::chain::set_time(&mut w.app, st.at);
+        let d0 = crate::chain::storage_digest(&w.app, &w.minter);
+        let r = tmw::apply(&mut w, &st.op);
+        let d1 = crate::chain::storage_digest(&w.app, &w.minter);
+        let post = tmw::observe(&w, c);
+        let (ok, pick, burned_evt) = match &r {
+            Ok(resp) => (true, tmw::minted_pick(&w, resp), tmw::burned_attr(resp)),
+            Err(_) => (false, 0, None),
+        };
+        res.steps += 1;
+        if ok {
+            res.ok_steps += 1;
+        }
+        *res.hist.entry(format!("{}:{}:{}", TM_VARIANT, st.op.kind(), if ok { "ok" } else { "err" })).or_insert(0) += 1;
+        if pick != 0 {
+            *res.hist.entry(format!("{}:{}:minted", TM_VARIANT, st.op.kind())).or_insert(0) += 1;
+        }
+        steps_coq.push(format!("({}, {}, {})", st.at, tmw::op_coq(&st.op, pick), tmw::obs_coq(ok, &post)));
+        let mut bad = |k: &str, what: String| res.violations.push((format!("C01:tm-{}", k), format!("{}: {:?}: {}", TM_VARIANT, st.op, what)));
+        if !ok {
+            if pre != post || d0 != d1 {
+                bad("failed-call-changed-state", "a failed call changed queries or raw storage".into());
+            }
+        } else {
+            let new_ids: Vec<String> = post.tgt_all.iter().filter(|t| !pre.tgt_all.contains(t)).cloned().collect();
+            if !new_ids.is_empty() || pick != 0 || post.tgt_supply != pre.tgt_supply {
+                // a token was created
+                if !tm_op_mints(&st.op) {
+                    bad("mint-by-non-mint-call", format!("created {:?}", new_ids));
+                }
+                if pre.mintable == 0 {
+                    bad("mint-at-zero", "succeeded with mintable count 0".into());
+                }
+                if burn_done {
+                    bad("mint-after-burn", "succeeded after burn-remaining".into());
+                }
+                if new_ids.len() != 1 || post.tgt_supply != pre.tgt_supply + 1 || new_ids[0] != pick.to_string() {
+                    bad("mint-count", format!("one call created {:?} (reported id {}), NumTokens {} -> {}", new_ids, pick, pre.tgt_supply, post.tgt_supply));
+                }
+                for t in &new_ids {
+                    let id: u64 = t.parse().unwrap_or(0);
+                    if id < 1 || id > n {
+                        bad("id-out-of-range", format!("minted id {} outside 1..={}", t, n));
+                    }
+                    if !minted.insert(id) {
+                        bad("id-minted-twice", format!("id {} minted twice", id));
+                    }
+                    if !pre.positions.iter().any(|p| p.1 as u64 == id) {
+                        bad("id-not-mintable", format!("id {} was not among the remaining ids", id));
+                    }
+                    if let tmw::Op::MintFor { tid, .. } = &st.op {
+                        if id != *tid as u64 {
+                            bad("mint-for-wrong-id", format!("MintFor({}) delivered {}", tid, id));
+                        }
+                    }
+                    let want_owner = match &st.op {
+                        tmw::Op::MintTo { recip: tmw::Recip::Addr(i), .. } | tmw::Op::MintFor { recip: tmw::Recip::Addr(i), .. } => Some(tmw::ACCOUNTS[*i].1),
+                        tmw::Op::Send { user, recip, .. } => match recip {
+                            tmw::Recip::None => Some(tmw::ACCOUNTS[*user].1),
+                            tmw::Recip::Addr(i) => Some(tmw::ACCOUNTS[*i].1),
+                            tmw::Recip::Invalid => None,
+                        },
+                        _ => None,
+                    };
+                    if id >= 1 && id <= n && Some(post.tgt[(id - 1) as usize]) != want_owner {
+                        bad("wrong-owner", format!("token {} owned by {}, expected {:?}", id, post.tgt[(id - 1) as usize], want_owner));
+                    }
+                }
+            } else if matches!(st.op, tmw::Op::MintTo { .. } | tmw::Op::MintFor { .. }) {
+                bad("mint-without-token", "MintTo/MintFor succeeded but no token was created".into());
+            }
+            if let tmw::Op::Shuffle { .. } = &st.op {
+                let mut a: Vec<u32> = pre.positions.iter().map(|p| p.1).collect();
+                let mut b: Vec<u32> = post.positions.iter().map(|p| p.1).collect();
+                a.sort();
+                b.sort();
+                let ka: Vec<u32> = pre.positions.iter().map(|p| p.0).collect();
+                let kb: Vec<u32> = post.positions.iter().map(|p| p.0).collect();
+                if a != b || ka != kb || pre.mintable != post.mintable {
+                    bad("shuffle-changed-set", "shuffle changed the remaining ids, their positions or their number".into());
+                }
+                if pre.mintable == 0 {
+                    bad("shuffle-at-zero", "shuffle succeeded with nothing left".into());
+                }
+            }
+            if let tmw::Op::BurnRemaining { .. } = &st.op {
+                let gone = pre.positions.len() as u64;
+                if burned_evt != Some(gone) || !post.positions.is_empty() || post.mintable != 0 {
+                    bad("burn-remaining", format!("reported {:?} burned, {} ids before, {} after, count {}", burned_evt, gone, post.positions.len(), post.mintable));
+                }
+                burned += gone;
+                burn_done = true;
+            }
+        }
+        // after every step
+        if post.mintable + minted.len() as u64 + burned != n {
+            bad("count-identity", format!("mintable {} + minted {} + burned {} != num_tokens {}", post.mintable, minted.len(), burned, n));
+        }
+        if post.positions.len() as u64 != post.mintable {
+            bad("table-size", format!("{} ids stored but mintable count {}", post.positions.len(), post.mintable));
+        }
+        let mut left: Vec<u64> = post.positions.iter().map(|p| p.1 as u64).collect();
+        left.sort();
+        let want: Vec<u64> = if burn_done { vec![] } else { (1..=n).filter(|t| !minted.contains(t)).collect() };
+        if left != want {
+            bad("remaining-ids", format!("remaining ids {:?}, expected {:?}", left, want));
+        }
+        let mut toks: Vec<u64> = post.tgt_all.iter().map(|t| t.parse().unwrap_or(0)).collect();
+        toks.sort();
+        if toks != minted.iter().cloned().collect::<Vec<u64>>() || post.tgt_supply != minted.len() as u64 {
+            bad("collection-mismatch", format!("collection holds {:?} (NumTokens {}), trace minted {:?}", toks, post.tgt_supply, minted));
+        }
+        pre = post;
+        if res.violations.len() > 5 {
+            break;
+        }
+    }
+    if res.violations.is_empty() || steps_coq.len() == c.steps.len() {
+        res.coq = Some(format!("C17Case {} {} [{}]", tmw::cfg_coq(c), tmw::obs_coq(true, &init), steps_coq.join("; ")));
+    }
+    res
+}
+
+struct TmB {
+    case: tmw::Case,
+    t: u64,
+    next_tok: BTreeMap<(usize, usize), u64>,
+}
+impl TmB {
+    fn new(name: &str, req: &[u32], n: u32, limit: u32, price: u128) -> TmB {
+        TmB {
+            case: tmw::Case {
+                name: name.into(),
+                req: req.iter().enumerate().map(|(i, a)| (i, *a)).collect(),
+                ncolls: req.len() + 1,
+                num_tokens: n,
+                limit,
+                airdrop_price: price,
+                shuffle_fee: 500,
+                src: vec![],
+                steps: vec![],
+            },
+            t: tmw::START + 1,
+            next_tok: BTreeMap::new(),
+        }
+    }
+    fn push(&mut self, op: tmw::Op) {
+        self.case.steps.push(tmw::Step { at: self.t, op });
+        self.t += 1_000_000_007;
+    }
+    fn dep(&mut self, coll: usize, user: usize, recip: tmw::Recip) {
+        let k = self.next_tok.entry((coll, user)).or_insert(0);
+        *k += 1;
+        let tok = user as u64 * 1000 + *k;
+        self.case.src.push((coll, tok, user));
+        self.push(tmw::Op::Send { coll, user, tok, garbage: false, recip });
+    }
+    /// a full set of deposits by `user` for `recip`: the last one triggers the mint (if anything is left)
+    fn merge(&mut self, user: usize, recip: tmw::Recip) {
+        let req = self.case.req.clone();
+        for (c, a) in req {
+            for _ in 0..a {
+                self.dep(c, user, recip.clone());
+            }
+        }
+    }
+    fn pay(&self) -> Vec<(u8, u128)> {
+        if self.case.airdrop_price == 0 {
+            vec![]
+        } else {
+            vec![(0, self.case.airdrop_price)]
+        }
+    }
+    fn mint_to(&mut self, recip: usize) {
+        let f = self.pay();
+        self.push(tmw::Op::MintTo { caller: tmw::CREATOR, recip: tmw::Recip::Addr(recip), funds: f });
+    }
+    fn mint_for(&mut self, tid: u32, recip: usize) {
+        let f = self.pay();
+        self.push(tmw::Op::MintFor { caller: tmw::CREATOR, tid, recip: tmw::Recip::Addr(recip), funds: f });
+    }
+    fn shuffle(&mut self, who: usize) {
+        self.push(tmw::Op::Shuffle { caller: who, funds: vec![(0, 500)] });
+    }
+}
+
+fn tm_corpus() -> Vec<tmw::Case> {
+    let mut v = vec![];
+    // sell out 2 tokens by mint-for in reverse order (the second request of the same id fails), then every creator of tokens must fail
+    let mut b = TmB::new("tm-corpus-mintfor", &[1], 2, 2, 0);
+    b.mint_for(2, 1);
+    b.mint_for(2, 1);
+    b.shuffle(5);
+    b.merge(2, tmw::Recip::None);
+    b.merge(2, tmw::Recip::None);
+    b.mint_to(3);
+    b.mint_for(1, 3);
+    b.shuffle(5);
+    b.push(tmw::Op::Purge { caller: 5, funds: vec![] });
+    b.push(tmw::Op::BurnRemaining { caller: tmw::CREATOR, funds: vec![] });
+    v.push(b.case);
+    // burn with tokens left, then nothing mints
+    let mut b = TmB::new("tm-corpus-burn", &[2], 5, 3, 1000);
+    b.merge(1, tmw::Recip::None);
+    b.push(tmw::Op::BurnRemaining { caller: 5, funds: vec![] });
+    b.push(tmw::Op::BurnRemaining { caller: tmw::CREATOR, funds: vec![] });
+    b.merge(1, tmw::Recip::None);
+    b.mint_to(3);
+    b.mint_for(3, 1);
+    b.push(tmw::Op::BurnRemaining { caller: tmw::CREATOR, funds: vec![] });
+    b.shuffle(5);
+    v.push(b.case);
+    // burn-remaining with 1, 2, 3 tokens left
+    for left in 1..=3u32 {
+        let mut b = TmB::new(&format!("tm-corpus-burn-left-{}", left), &[1], left + 1, 2, 0);
+        b.mint_to(1);
+        b.push(tmw::Op::BurnRemaining { caller: tmw::CREATOR, funds: vec![] });
+        b.mint_for(1, 1);
+        b.mint_for(2, 1);
+        b.merge(2, tmw::Recip::None);
+        b.shuffle(5);
+        b.push(tmw::Op::Purge { caller: 5, funds: vec![] });
+        v.push(b.case);
+    }
+    // shuffle with 9..1 tokens left keeps the id set; mints alternate between deposit, MintTo, MintFor
+    let mut b = TmB::new("tm-corpus-shuffle", &[1, 1], 9, 3, 0);
+    for k in 0..9u32 {
+        b.shuffle(1 + (k as usize % 3));
+        match k % 3 {
+            0 => b.merge(1 + (k as usize / 3) % 3, tmw::Recip::Addr(1 + (k as usize % 4))),
+            1 => b.mint_to(2),
+            _ => b.mint_for(9 - k, 3),
+        }
+    }
+    b.shuffle(1);
+    b.mint_to(2);
+    v.push(b.case);
+    // mint-for boundaries: 0, n+1, n, 1, and an id a deposit already took
+    let mut b = TmB::new("tm-corpus-mintfor-bounds", &[1], 4, 3, 1000);
+    b.mint_for(0, 1);
+    b.mint_for(5, 1);
+    b.mint_for(4, 1);
+    b.mint_for(1, 1);
+    b.merge(2, tmw::Recip::None);
+    for t in 1..=4 {
+        b.mint_for(t, 3);
+    }
+    b.mint_to(3);
+    v.push(b.case);
+    v
+}
+
+fn gen_tm_case(rng: &mut Rng, idx: usize, thorough: bool) -> tmw::Case {
+    let sizes: &[u32] = if thorough { &[1, 2, 3, 5, 7, 12, 30, 49, 50, 51, 52, 60] } else { &[1, 2, 3, 5, 12, 49, 50, 51, 60] };
+    let n = *rng.pick(sizes);
+    let req: Vec<u32> = match rng.below(4) {
+        0 => vec![2],
+        1 => vec![1, 1],
+        _ => vec![1],
+    };
+    let limit = rng.range(1, 3) as u32;
+    let price = *rng.pick(&[0u128, 0, 1000]);
+    let mut b = TmB::new(&format!("tm-random-{}", idx), &req, n, limit, price);
+    let len = rng.range(25, 45) as usize + n as usize;
+    let mut burn_budget = if rng.chance(1, 3) { 1 } else { 0 };
+    for i in 0..len {
+        if rng.chance(1, 4) {
+            b.t += rng.range(1, 5) * 1_000_000_000;
+        }
+        let who_any = rng.below(6) as usize;
+        match rng.below(100) {
+            0..=29 => {
+                let user = rng.range(1, 3) as usize;
+                let recip = if rng.chance(1, 3) { tmw::Recip::Addr(rng.below(6) as usize) } else { tmw::Recip::None };
+                if rng.chance(3, 4) {
+                    b.merge(user, recip);
+                } else {
+                    b.dep(rng.below(req.len() as u64 + 1) as usize, user, recip);
+                }
+            }
+            30..=57 => {
+                let caller = if rng.chance(9, 10) { tmw::CREATOR } else { who_any };
+                let f = if rng.chance(9, 10) { b.pay() } else { vec![(0, price + 1)] };
+                b.push(tmw::Op::MintTo { caller, recip: tmw::Recip::Addr(rng.below(6) as usize), funds: f });
+            }
+            58..=75 => {
+                let tid = match rng.below(10) {
+                    0 => 0,
+                    1 => n + 1,
+                    _ => rng.range(1, n as u64) as u32,
+                };
+                let caller = if rng.chance(9, 10) { tmw::CREATOR } else { who_any };
+                let f = b.pay();
+                b.push(tmw::Op::MintFor { caller, tid, recip: tmw::Recip::Addr(rng.below(6) as usize), funds: f });
+            }
+            76..=87 => b.push(tmw::Op::Shuffle { caller: who_any, funds: if rng.chance(5, 6) { vec![(0, 500)] } else { vec![(0, 499)] } }),
+            88..=93 => b.push(tmw::Op::Purge { caller: who_any, funds: vec![] }),
+            _ => {
+                if burn_budget > 0 && i > len / 2 {
+                    burn_budget -= 1;
+                    b.push(tmw::Op::BurnRemaining { caller: tmw::CREATOR, funds: vec![] });
+                } else {
+                    b.push(tmw::Op::BurnRemaining { caller: 5, funds: vec![] });
+                }
+            }
+        }
+    }
+    // drive to sell-out with admin mints, then everything that could create a token must fail at 0
+    if rng.chance(2, 3) {
+        for _ in 0..n {
+            b.mint_to(rng.below(6) as usize);
+        }
+    }
+    b.mint_to(1);
+    b.mint_for(1, 1);
+    b.merge(3, tmw::Recip::Addr(4));
+    b.shuffle(5);
+    b.push(tmw::Op::Purge { caller: 5, funds: vec![] });
+    b.merge(3, tmw::Recip::Addr(4));
+    b.case
+}
+
+/// greedy shrinking: drop every step whose removal keeps a violation with the same key
+fn shrink_tm(c: &tmw::Case, key: &str) -> tmw::Case {
+    let has = |c: &tmw::Case| run_tm_case(c).violations.iter().any(|(k, _)| k == key);
+    let mut cur = c.clone();
+    let mut i = cur.steps.len();
+    while i > 0 {
+        i -= 1;
+        let mut t = cur.clone();
+        t.steps.remove(i);
+        if has(&t) {
+            cur = t;
+        }
+    }
+    let used: BTreeSet<(usize, u64)> = cur
+        .steps
+        .iter()
+        .filter_map(|s| match &s.op {
+            tmw::Op::Send { coll, tok, .. } => Some((*coll, *tok)),
+            _ => None,
+        })
+        .collect();
+    let mut t = cur.clone();
+    t.src.retain(|(c, k, _)| used.contains(&(*c, *k)));
+    if has(&t) {
+        cur = t;
+    }
+    cur
+}
+
+/// runs part 3; returns (#cases, #violations)
+fn run_tm_part(a: &Args, out: &OutDir, rep: &mut Report, replay: Option<tmw::Case>, nviol_before: usize) -> (usize, usize) {
+    let cases: Vec<tmw::Case> = match replay {
+        Some(c) => vec![c],
+        None => {
+            let mut rng = Rng::new(a.seed ^ 0x7E7E_7E7E);
+            let mut v = tm_corpus();
+            for i in 0..(if a.thorough() { 300 } else { 30 }) {
+                v.push(gen_tm_case(&mut rng, i, a.thorough()));
+            }
+            v
+        }
+    };
+    let mut coq_cases = vec![];
+    let mut nviol = 0usize;
+    let mut samples = 0;
+    for (i, c) in cases.iter().enumerate() {
+        let r = run_tm_case(c);
+        rep.evaluations += r.steps;
+        for (k, v) in &r.hist {
+            *rep.histogram.entry(k.clone()).or_insert(0) += v;
+        }
+        if r.ok_steps > 0 {
+            rep.distinct_nontrivial += r.ok_steps;
+        }
+        for (key, what) in r.violations.iter().take(3) {
+            nviol += 1;
+            if nviol_before + nviol <= 60 {
+                let shrunk = if nviol <= 3 && a.replay.is_none() { shrink_tm(c, key) } else { c.clone() };
+                let body = format!(
+                    "{{\n \"property\": \"C01\",\n \"part\": \"tm\",\n \"key\": {},\n \"violation\": {},\n \"case\": {}\n}}\n",
+                    serde_json::to_string(key).unwrap(),
+                    serde_json::to_string(what).unwrap(),
+                    serde_json::to_string(&shrunk).unwrap()
+                );
+                let path = out.write_replay(&format!("C01-tm-{}.json", nviol), &body);
+                rep.violations.push(Violation { key: key.clone(), what: what.clone(), replay: path });
+            }
+        }
+        if samples < 1 && i % 11 == 3 {
+            samples += 1;
+            rep.samples.push(serde_json::json!({"variant": TM_VARIANT, "num_tokens": c.num_tokens, "requirements": format!("{:?}", c.req),
+                "first_ops": c.steps.iter().take(8).map(|o| format!("{:?}", o.op)).collect::<Vec<_>>(), "steps": r.steps, "ok_steps": r.ok_steps}));
+        }
+        if let Some(cq) = r.coq {
+            coq_cases.push(cq);
+        }
+    }
+    rep.rule.push_str(" || part 3: histories of deposit-triggered mints (SendNft of the required source tokens, own or explicit recipient) interleaved with MintTo/MintFor/Shuffle/Purge/BurnRemaining by admin, users and stranger on the token-merge minter created through the token-merge factory, num_tokens 1..60, up to and past sell-out; same counting rules");
+    out.write_cases("C01tm", "From LP Require Import Num Pay Sg1 TokenMerge C17Corr.", "c17_case", "c17_check", &coq_cases, 6, rep);
     (cases.len(), nviol)
 }
